@@ -328,7 +328,8 @@ def callStep (ms : MacroSem) (subs : SubEnv) (fuel : Nat) (f : String) (args : L
     | some (ps, body) => do
         let σ' ← execIL ms subs fuel body { σ with params := ps.zip vs }
         .ok { σ' with params := σ.params }
-    | none => if f == "hex_set_usr_field" then setUsrFieldIL σ args vs else .error (.undef f)
+    | none => if f == "hex_set_usr_field" then setUsrFieldIL σ args vs
+              else if f == "hex_get_usr_field" then getUsrFieldIL σ args else .error (.undef f)
   else if f == "HEX_STORE_SLOT_CANCELLED" then
     .ok { σ with locals := setLocal σ.locals "$slot_cancelled" (.bool true) }
   else if f == "HEX_GET_NPC" then
@@ -437,7 +438,7 @@ theorem EEqAt.call (f : String) {σ : MState} {as as' : List ILPure} (h : PsEqAt
   | succ k =>
     rw [execIL_call, execIL_call]
     refine toOption_bind_congr h (fun vs => ?_)
-    simp only [callStep, setUsrFieldIL, hx]
+    simp only [callStep, setUsrFieldIL, getUsrFieldIL, hx]
 
 theorem ESeqEqAt.cons {σ : MState} {e e' : ILEffect} {es es' : List ILEffect} (h : EEqAt ms subs σ e e')
     (hs : ∀ σ₁, ESeqEqAt ms subs σ₁ es es') : ESeqEqAt ms subs σ (e :: es) (e' :: es') := by
